@@ -13,8 +13,11 @@ from .table import T1_MODULES, LEVEL
 
 def run_property(pid, tier):
     rep = Report(pid, tier, level=LEVEL.get(pid, "other"))
+    import os
+
+    only = os.environ.get("VERIF_ONLY", "")  # debugging aid: "t1" or "bounded"
     mods = T1_MODULES.get(pid, [])
-    if mods:
+    if mods and only != "bounded":
         t1.run_t1(rep, mods, pid=pid, quick=(tier == "quick"))
     try:
         bounded = importlib.import_module(f"vt.props.{pid.lower()}_bounded")
@@ -22,7 +25,7 @@ def run_property(pid, tier):
         if f"{pid.lower()}_bounded" not in str(e):
             raise
         bounded = None
-    if bounded is not None:
+    if bounded is not None and only != "t1":
         bounded.run_bounded(rep, tier)
     nt1 = len(rep.obligations)
     nd = sum(o["status"] == "discharged" for o in rep.obligations)
